@@ -108,12 +108,38 @@ func runC06(c *Case) {
 	}
 	pool := keyPool(r, nkeys, classes)
 	// a sorted copy for picking bounds "past the end" etc.
+	var recent []interface{}
 	pk := func() interface{} {
 		if r.Intn(12) == 0 {
 			// a key not in the pool
 			return keyPool(r, 1, classes)[0]
 		}
-		return pool[r.Intn(len(pool))]
+		if len(recent) > 0 && r.Intn(3) == 0 {
+			// the same few keys again and again: delete / re-insert / update sequences on one key
+			return recent[r.Intn(len(recent))]
+		}
+		k := pool[r.Intn(len(pool))]
+		recent = append(recent, k)
+		if len(recent) > 3 {
+			recent = recent[1:]
+		}
+		return k
+	}
+	// twin returns a key of the pool in its other numeric representation (INTEGER n <-> REAL n.0)
+	twin := func() interface{} {
+		for tries := 0; tries < 8; tries++ {
+			switch x := pool[r.Intn(len(pool))].(type) {
+			case int64:
+				if f := float64(x); int64(f) == x && f < 9e18 && f > -9e18 {
+					return f
+				}
+			case float64:
+				if x == float64(int64(x)) && x < 9e18 && x > -9e18 {
+					return int64(x)
+				}
+			}
+		}
+		return pk()
 	}
 	tsec := 0
 	inTx := false
@@ -261,6 +287,8 @@ func runC06(c *Case) {
 				fallthrough
 			case 3:
 				return c06stmt{"update %T set b=? where k=?", []interface{}{val("b"), pk()}}
+			case 4:
+				return c06stmt{"update %T set b=? where k=?", []interface{}{val("b"), twin()}}
 			default:
 				return c06stmt{"update %T set a=? where k=?", []interface{}{valA(), pk()}}
 			}
@@ -286,6 +314,8 @@ func runC06(c *Case) {
 					return c06stmt{"delete from %T where b=? or a=?", []interface{}{val("b"), valA()}}
 				}
 				fallthrough
+			case 7:
+				return c06stmt{"delete from %T where k=?", []interface{}{twin()}}
 			default:
 				return c06stmt{"delete from %T where k=?", []interface{}{pk()}}
 			}
@@ -295,6 +325,16 @@ func runC06(c *Case) {
 		ops := []string{"=", "<", "<=", ">", ">="}
 		x := r.Intn(100)
 		switch {
+		case x < 4:
+			// lookups by the other numeric representation of a stored key
+			switch r.Intn(3) {
+			case 0:
+				return query("select * from %T where k = ?", true, twin())
+			case 1:
+				return query("select * from %T where k in (?,?) order by k", true, twin(), twin())
+			default:
+				return query("select count(*) from %T where k >= ? and k <= ?", true, twin(), twin())
+			}
 		case x < 12:
 			return query("select * from %T where k = ?", true, pk())
 		case x < 40:
